@@ -102,6 +102,14 @@ SpectrumStage ==                                              \* event spectrum
             /\ vpc = "spectrum"
             /\ LET g == Geometry(vc) IN
                vg' = [vg EXCEPT !.stage = "spectrum"] @@ [tnx |-> IF vc.fp THEN g.nlx ELSE g.tnx, tny |-> IF vc.fp THEN g.nly ELSE g.tny]
+            /\ vpc' = "modes"
+            /\ UNCHANGED <<vc, vres>>
+
+\* the Fourier summation indices of the retained modes: slot s of an axis with n retained modes carries wavenumber Freq(s, n)
+ModeIndex(n) == [s \in 1..n |-> Freq(s - 1, n)]
+ModesStage ==                                                 \* event modes
+            /\ vpc = "modes"
+            /\ vg' = [vg EXCEPT !.stage = "modes"] @@ [ilx |-> ModeIndex(vg.nlx), ily |-> ModeIndex(vg.nly)]
             /\ vpc' = "alloc"
             /\ UNCHANGED <<vc, vres>>
 
@@ -159,7 +167,7 @@ Return ==   /\ vpc = "return"                                 \* event return
             /\ vpc' = "done"
             /\ UNCHANGED <<vc, vg>>
 
-Next == \/ RaiseOddModes \/ Pad \/ Clamp \/ SpectrumStage \/ RaisePrecision \/ IndexError \/ Alloc
+Next == \/ RaiseOddModes \/ Pad \/ Clamp \/ SpectrumStage \/ ModesStage \/ RaisePrecision \/ IndexError \/ Alloc
         \/ AnalyticBranch \/ ThreadSetup \/ Sweep1 \/ Sweep2 \/ MeanStore \/ MeanDone
         \/ UntruncateStage \/ Crop \/ Return
 
